@@ -15,6 +15,8 @@ ALL functions of the anchored modules of the property, not only over the functio
     discarded result    the result of subs/replace/reassign/... dropped
     yield then mutate   a generator mutates a container it has already yielded
     falsy replacement   replace()/create() written as kwargs.get(k) or old
+    collector overwrite d = defaultdict(list); d[k] = ... inside a loop
+    stale system        a builder created from the ODE system read before the model was re-bound
     loop-carried flag   (advisory) a flag tested and cleared in an inner loop but initialised outside the outer one
 """
 from __future__ import annotations
@@ -116,6 +118,9 @@ def run(chk, repo, pid):
             for var, d, r, u in lints.stale_system_after_model_rebind(f.node):
                 found.append(('stale system', u.line, f'{d.text()[:40]} ... {r.text()[:40]} ... {u.text()[:50]}',
                               f'`{var}` was read before the model was re-bound to a changed system'))
+        for dname, a in lints.defaultdict_overwrites(f.node)[0]:
+            found.append(('collector overwritten', a.lineno, unparse(a)[:80],
+                          f'`{dname}` collects values per key; the assignment replaces what earlier iterations collected'))
         for b in ast.walk(f.node):
             if f.name in ('replace', 'create', 'derive') and isinstance(b, ast.BoolOp) and isinstance(b.op, ast.Or) \
                     and isinstance(b.values[0], ast.Call) and isinstance(b.values[0].func, ast.Attribute) \
@@ -133,4 +138,4 @@ def run(chk, repo, pid):
                 chk.violation(Y0, f.module.rel, f.qualname, f'loop-carried flag `{v}`',
                               'tested and cleared in an inner loop, initialised outside the outer loop', line=M.lineno,
                               advisory=True)
-    chk.instance(Y0, f'{nfun} functions of {len(mods)} anchored modules scanned for 11 defect shapes', n=nfun)
+    chk.instance(Y0, f'{nfun} functions of {len(mods)} anchored modules scanned for 12 defect shapes', n=nfun)
